@@ -33,6 +33,10 @@ type concCase struct {
 	// starts its program (its first <Syscall> is stretched to DelayMs), and OffsetMs later
 	// the other threads run the rest of theirs -- inside thread 0's stretched operation.
 	Delay *delaySpec `json:"delay,omitempty"`
+	// Dynamic: the callers go through credentials.NewStore (DynamicStore, AllowPlaintextPut) on the
+	// config path instead of a FileStore; operations "I" (IsAuthConfigured) are executed (the race
+	// detector watches them) but not judged -- they are not Get/Put/Delete.
+	Dynamic bool `json:"dynamic,omitempty"`
 }
 
 type delaySpec struct {
@@ -194,6 +198,26 @@ func runConcBatch(cases []concCase) {
 }
 
 func judgeConc(id string, p concPrep, results [][]string) {
+	if p.cc.Dynamic {
+		// not judged: IsAuthConfigured calls
+		cc2 := p.cc
+		cc2.Threads = nil
+		var res2 [][]string
+		for i, ops := range p.cc.Threads {
+			var o2 []opx
+			var r2 []string
+			for j, o := range ops {
+				if o.Op != "I" {
+					o2 = append(o2, o)
+					r2 = append(r2, results[i][j])
+				}
+			}
+			cc2.Threads = append(cc2.Threads, o2)
+			res2 = append(res2, r2)
+		}
+		p.cc, results = cc2, res2
+		run.Count("conc:dynamic-store")
+	}
 	cc, base, path, initDoc := p.cc, p.base, p.path, p.initDoc
 	ctx := context.Background()
 	fail := func(sig, msg string) { run.OracleFail(id, sig, msg, cc) }
@@ -373,9 +397,16 @@ func judgeConc(id string, p concPrep, results [][]string) {
 	}
 }
 
-func doOp(fs *credentials.FileStore, o opx) string {
+type authConfigured interface{ IsAuthConfigured() bool }
+
+func doOp(fs credentials.Store, o opx) string {
 	ctx := context.Background()
 	switch o.Op {
+	case "I":
+		if ac, ok := fs.(authConfigured); ok {
+			ac.IsAuthConfigured()
+		}
+		return "i"
 	case "G":
 		c, err := fs.Get(ctx, o.Addr)
 		if err != nil {
@@ -391,7 +422,7 @@ func doOp(fs *credentials.FileStore, o opx) string {
 }
 
 // runFree: free-running goroutines on one store (executed in the child).
-func runFree(fs *credentials.FileStore, threads [][]opx) [][]string {
+func runFree(fs credentials.Store, threads [][]opx) [][]string {
 	results := make([][]string, len(threads))
 	var wg sync.WaitGroup
 	start := make(chan struct{})
